@@ -2,6 +2,7 @@
 # Independently confirm a seeded change: on a fresh worktree of /repo's HEAD the
 # patch applies, the repository's whole test suite passes WITH it, the
 # demonstration fails WITH it and passes WITHOUT it. Everything is removed afterwards.
+# DEMO_FEATURES='"tzdb-bundle-always"' adds jiff features to the demonstration crate.
 # usage: verify_seeded.sh <dir containing patch.diff and demo.rs> <name>
 set -u
 SRC=$1; NAME=$2
@@ -18,7 +19,7 @@ name = "demo"
 version = "0.0.0"
 edition = "2021"
 [dependencies]
-jiff = { path = ".." }
+jiff = { path = ".."${DEMO_FEATURES:+, features = [$DEMO_FEATURES]} }
 [workspace]
 EOT
 cp $SRC/demo.rs $W/demo-crate/src/main.rs
